@@ -207,7 +207,7 @@ class Writer:
 
     # -- answers ---------------------------------------------------------------
     def version(self, ver=None, **kw) -> bytes:
-        v = ver or self.inst["version"]
+        v = ver or getattr(self, "current_version", None) or self.inst["version"]
         return self.frame(0x1F, rc.write_version(v["update"], v["versions"], "|" if self.gen == 4 else ","), **kw)
 
     def names(self, **kw) -> bytes:
